@@ -1,6 +1,12 @@
 //! C17: character classes = union of covering definitions.
+//!
+//! The generator is organised by the branches of `read_character_definition`, `CategoryType::from_str`
+//! (bitflags parser), `compile`, `get_category_types` and `CharCategoryIter::next`: every line is built from a
+//! RANGE form, a CLASS-COLUMN form and a decoration (separators, comment, terminator), each of which declares
+//! what it means (`Decl`), so the oracle never re-parses the text it wrote.
 use crate::common::*;
-use sudachi::dic::character_category::CharacterCategory;
+use sudachi::dic::character_category::{CharacterCategory, Error as CcError};
+use sudachi::error::SudachiError;
 
 const NAMES: &[(&str, u32)] = &[
     ("DEFAULT", 1), ("SPACE", 2), ("KANJI", 4), ("SYMBOL", 8), ("NUMERIC", 16), ("ALPHA", 32),
@@ -11,83 +17,384 @@ const NAMES: &[(&str, u32)] = &[
 
 const ANCHORS: &[u32] = &[0, 0x30, 0x41, 0x78, 0xf4, 0x7f8, 0x3040, 0x4e00, 0xd7f0, 0xe000, 0xfff4, 0x1f600, 0x10fff0];
 /// code points next to the sizes a direct look-up table or a narrower integer type would have
-const EDGES: &[u32] = &[0x7f, 0x80, 0xff, 0x100, 0x7ff, 0x800, 0xd7ff, 0xe000, 0xffff, 0x10000, 0x10ffff];
+const EDGES: &[u32] = &[0x7f, 0x80, 0xff, 0x100, 0x7ff, 0x800, 0xd7ff, 0xe000, 0xffff, 0x10000, 0x10fffe, 0x10ffff];
+/// `char::is_whitespace`: every White_Space code point class (ASCII, NEL, NBSP, Ogham, en quad.., line/paragraph separator, ideographic)
+const WHITE: &[&str] = &[" ", "\t", "\u{b}", "\u{c}", "\r", "\u{85}", "\u{a0}", "\u{1680}", "\u{2000}", "\u{2003}", "\u{200a}",
+    "\u{2028}", "\u{2029}", "\u{202f}", "\u{205f}", "\u{3000}"];
+/// look like blanks but are NOT White_Space (zero width space, BOM, Mongolian vowel separator, word joiner)
+const NOT_WHITE: &[&str] = &["\u{200b}", "\u{feff}", "\u{180e}", "\u{2060}"];
+
+#[derive(Clone, Debug, PartialEq)]
+pub enum Decl {
+    /// the loop `continue`s
+    Skip,
+    /// a definition line: begin, INCLUSIVE end, classes
+    Range { b: u32, e: u32, cats: u32 },
+    /// `Err(..)`
+    Bad,
+    /// `u32 + 1` overflows (debug build)
+    Panic,
+}
 
 pub struct DefLine {
     pub b: u32,
     pub e: u32, // inclusive
     pub cats: u32,
-    pub valid: bool,
 }
 
 fn is_scalar(x: u32) -> bool {
     char::from_u32(x).is_some()
 }
 
-/// a definition file together with the ranges it declares
-pub fn gen_def(rng: &mut Rng, directed: usize) -> (String, Vec<DefLine>, bool) {
-    let mut text = String::new();
-    let mut lines = vec![];
-    let mut loads = true;
-    let nlines = match directed {
-        0 => 0,
-        _ => rng.range(1, 9),
+fn range_ok(b: u32, e: u32) -> bool {
+    b <= e && e != u32::MAX && is_scalar(b) && is_scalar(e + 1)
+}
+
+fn hexnum(rng: &mut Rng, x: u32, form: &mut Vec<&'static str>) -> String {
+    let s = if rng.chance(1, 2) { format!("{:X}", x) } else { format!("{:x}", x) };
+    match rng.below(12) {
+        0..=4 => format!("0x{}", s),
+        5..=7 => format!("0x{:0>4}", s),
+        8 => { form.push("num:0x0x"); format!("0x0x{}", s) }
+        9 => { form.push("num:plus"); format!("0x+{}", s) }
+        10 => { form.push("num:long-zero-pad"); format!("0x{:0>11}", s) } // > 8 digits: the checked loop of from_str_radix
+        _ => { form.push("num:8-digits"); format!("0x{:0>8}", s) }
+    }
+}
+
+/// first column: text and what it declares (`Some((b, e))`, `None` = error, `Err(())` = overflow panic)
+fn gen_range(rng: &mut Rng, anchor: u32, spread: u32, form: &mut Vec<&'static str>) -> (String, Result<Option<(u32, u32)>, ()>) {
+    let a = if rng.chance(1, 8) { *rng.pick(ANCHORS) } else if rng.chance(1, 10) { *rng.pick(EDGES) } else { anchor };
+    let b = (a + rng.below(spread as usize) as u32).min(0x10fffe);
+    if rng.chance(1, 24) {
+        // malformed or unusual first columns, one per branch of the number handling
+        let e = b + rng.below(spread as usize) as u32;
+        let k = rng.below(20);
+        let (t, r): (String, Result<Option<(u32, u32)>, ()>) = match k {
+            0 => { form.push("range:empty-hex"); ("0x".into(), Ok(None)) }
+            1 => { form.push("range:empty-first"); (format!("0x..0x{:x}", e), Ok(None)) }
+            2 => { form.push("range:empty-second"); (format!("0x{:x}..", b), Ok(None)) }
+            3 => { form.push("range:three-dots"); (format!("0x{:x}...0x{:x}", b, e), Ok(None)) }
+            4 => { form.push("range:minus"); (format!("0x-{:x}", b), Ok(None)) }
+            5 => { form.push("range:plus-alone"); ("0x+".into(), Ok(None)) }
+            6 => { form.push("range:bad-digit"); (format!("0x{:x}G", b), Ok(None)) }
+            7 => { form.push("range:9-digits-overflow"); ("0x100000000".into(), Ok(None)) }
+            8 => { form.push("range:overflow-then-bad-digit"); ("0xFFFFFFFFFZ".into(), Ok(None)) }
+            9 => { form.push("range:bad-digit-then-overflow"); ("0xFFFFFFFZFF".into(), Ok(None)) }
+            10 => { form.push("range:u32max-single"); ("0xFFFFFFFF".into(), Err(())) }
+            11 => { form.push("range:u32max-end"); (format!("0x{:x}..0xffffffff", b), Err(())) }
+            12 => { form.push("range:u32max-1"); ("0xFFFFFFFE".into(), Ok(None)) }
+            13 => { form.push("range:hash-in-number"); (format!("0x{:x}#c", b), Ok(None)) }
+            14 => { form.push("range:comma"); (format!("0x{:x},0x{:x}", b, e), Ok(None)) }
+            15 => {
+                // a third `..` part is ignored by the reader
+                form.push("range:three-parts");
+                (format!("0x{:x}..0x{:x}..0x{:x}", b, e, rng.below(0x3000)), Ok(if range_ok(b, e) { Some((b, e)) } else { None }))
+            }
+            16 => {
+                form.push("range:second-without-0x");
+                (format!("0x{:x}..{:x}", b, e), Ok(if range_ok(b, e) { Some((b, e)) } else { None }))
+            }
+            17 => { form.push("range:end-before-begin"); let b3 = b.max(4); let e2 = b3 - 1 - rng.below(3) as u32; (format!("0x{:x}..0x{:x}", b3, e2), Ok(None)) }
+            18 => { form.push("range:surrogate-begin"); (format!("0x{:x}..0x{:x}", 0xd800 + rng.below(0x800) as u32, 0xe000 + rng.below(4) as u32), Ok(None)) }
+            _ => {
+                // ends whose successor is not a scalar value are refused: U+D7FF, inside the gap, U+10FFFF, beyond
+                form.push("range:end-successor-not-scalar");
+                let e2 = *rng.pick(&[0xd7ffu32, 0xd800, 0xdffe, 0x10ffff, 0x110000]);
+                let b2 = if rng.chance(1, 2) { e2.min(0x10ffff) } else { b.min(e2) };
+                (format!("0x{:x}..0x{:x}", b2, e2), Ok(None))
+            }
+        };
+        return (t, r);
+    }
+    let single = rng.chance(1, 3);
+    let mut e = if single { b } else { b + rng.below(spread as usize) as u32 };
+    if !single && rng.chance(1, 12) {
+        // long ranges: across the surrogate gap, up to the last coverable code point, the whole domain
+        form.push("range:long");
+        e = *rng.pick(&[0xdfffu32, 0xe000, 0xffff, 0x10000, 0x10fffe]);
+        if e < b { e = 0x10fffe; }
+    }
+    let t = if single && rng.chance(2, 3) { form.push("range:single"); hexnum(rng, b, form) } else {
+        form.push("range:pair");
+        format!("{}..{}", hexnum(rng, b, form), hexnum(rng, e, form))
     };
-    let anchor = *rng.pick(ANCHORS);
-    let spread = *rng.pick(&[4u32, 8, 14]);
-    for _ in 0..nlines {
-        if rng.chance(1, 6) {
-            text.push_str(*rng.pick(&["# comment\n", "\n", "   \n", "NUMERIC 0x30\n", "0 x\n"]));
-        }
-        let a = if rng.chance(1, 8) { *rng.pick(ANCHORS) } else { anchor };
-        let b = a + rng.below(spread as usize) as u32;
-        let single = rng.chance(1, 3);
-        let e = if single { b } else if rng.chance(1, 150) { b.wrapping_sub(1) } else { b + rng.below(spread as usize) as u32 };
-        let ncat = if rng.chance(1, 20) { 0 } else { rng.range(1, 3) };
-        let mut cats = 0u32;
-        let mut names = vec![];
-        for _ in 0..ncat {
+    (t, Ok(if range_ok(b, e) { Some((b, e)) } else { None }))
+}
+
+/// class columns (after the first): text of every column, declared union (`None` = `InvalidCategoryType`)
+fn gen_classes(rng: &mut Rng, form: &mut Vec<&'static str>) -> (Vec<String>, Option<u32>) {
+    let mut cols = vec![];
+    let mut cats = 0u32;
+    let ncat = if rng.chance(1, 20) { 0 } else { rng.range(1, 3) };
+    for _ in 0..ncat {
+        if rng.chance(1, 9) {
+            // everything else `bitflags::parser::from_str` takes for ONE column
+            match rng.below(9) {
+                0 | 1 => {
+                    form.push("class:a|b");
+                    let k = rng.range(2, 3);
+                    let mut parts = vec![];
+                    for _ in 0..k { let (n, v) = *rng.pick(NAMES); cats |= v; parts.push(n.to_string()); }
+                    cols.push(parts.join("|"));
+                }
+                2 => { form.push("class:hex"); let (_, v) = *rng.pick(NAMES); cats |= v; cols.push(format!("0x{:x}", v)); }
+                3 => { form.push("class:hex-unknown-bits"); let v = *rng.pick(&[0x8000u32, 0x10_0000, 0x2000_0000, 0xffff_ffff, 0xc000_0000]); cats |= v; cols.push(format!("0x{:X}", v)); }
+                4 => { form.push("class:hex-plus"); cats |= 0x40; cols.push("0x+40".into()); }
+                5 => { form.push("class:hex-zero"); cols.push("0x0".into()); }
+                6 => { form.push("class:name|hex"); cats |= 4 | 0x300; cols.push("KANJI|0x300".into()); }
+                7 => { form.push("class:hex-long-zero-pad"); cats |= 0x21; cols.push("0x00000000021".into()); }
+                _ => { form.push("class:ALL|NOOOVBOW"); cats |= 0x7fff_ffff; cols.push("ALL|NOOOVBOW".into()); }
+            }
+        } else {
             let (n, v) = *rng.pick(NAMES);
             cats |= v;
-            names.push(n.to_string());
+            cols.push(n.to_string());
         }
-        let mut bad_name = false;
-        if rng.chance(1, 200) {
-            names.push("KANJII".to_string());
-            bad_name = true;
-        }
-        let up = rng.chance(1, 2);
-        let fmt = |x: u32, w: bool| -> String {
-            let s = if up { format!("{:X}", x) } else { format!("{:x}", x) };
-            if w { format!("0x{:0>4}", s) } else { format!("0x{}", s) }
-        };
-        let pad = rng.chance(1, 2);
-        let mut l = if single && rng.chance(2, 3) { fmt(b, pad) } else { format!("{}..{}", fmt(b, pad), fmt(e, pad)) };
-        let mut no_cols = false;
-        if names.is_empty() && rng.chance(1, 4) {
-            // only one column: format error; otherwise a comment column gives an empty class set
-            no_cols = true;
-        } else {
-            for n in &names {
-                l.push_str(if rng.chance(1, 4) { "\t" } else { " " });
-                l.push_str(n);
-            }
-            if names.is_empty() || rng.chance(1, 5) {
-                l.push_str(" #KANJI comment");
-            }
-        }
-        if rng.chance(1, 10) {
-            l = format!("  {} ", l);
-        }
-        text.push_str(&l);
-        text.push_str(if rng.chance(1, 10) { "\r\n" } else { "\n" });
-        let valid = !(no_cols || bad_name || b > e || e == u32::MAX || !is_scalar(b) || !is_scalar(e.wrapping_add(1)));
-        if !valid && loads {
-            loads = false;
-        }
-        lines.push(DefLine { b, e, cats, valid });
     }
-    (text, lines, loads)
+    if rng.chance(1, 70) {
+        let bad = *rng.pick(&["KANJII", "kanji", "Kanji", "|", "KANJI|", "|KANJI", "KANJI||ALPHA", "0x", "0xZZ", "0x100000000", "0x-1",
+            "KANJI#x", "ALL,", "DEFAULT.", "\u{200b}KANJI", "KANJI\u{feff}", "ＫＡＮＪＩ", "漢字"]);
+        form.push("class:bad");
+        let at = rng.below(cols.len() + 1);
+        cols.insert(at, bad.to_string());
+        return (cols, None);
+    }
+    (cols, Some(cats))
+}
+
+/// one line (without terminator) and its declaration
+fn gen_line(rng: &mut Rng, anchor: u32, spread: u32, form: &mut Vec<&'static str>) -> (String, Decl) {
+    if rng.chance(1, 7) {
+        // lines the loop skips
+        let t: String = match rng.below(14) {
+            0 => "# comment".into(),
+            1 => "".into(),
+            2 => "   ".into(),
+            3 => "NUMERIC 0x30".into(),
+            4 => "0 x".into(),
+            5 => { form.push("skip:upper-0X"); "0X30 KANJI".into() }
+            6 => { form.push("skip:comment-2-3-4-byte"); "# é 漢字 😀 \u{10fffd}".into() }
+            7 => { form.push("skip:unicode-blank-only"); "\u{3000}\u{a0}\u{2028}".into() }
+            8 => { form.push("skip:not-white-prefix"); format!("{}0x30 KANJI", rng.pick(NOT_WHITE)) }
+            9 => { form.push("skip:indented-comment"); format!("{}#0x30 KANJI", rng.pick(WHITE)) }
+            10 => "x0 KANJI".into(),
+            11 => "0".into(),
+            12 => { form.push("skip:#0x"); "#0x30..0x39 NUMERIC".into() }
+            _ => { form.push("skip:fullwidth-0x"); "０ｘ30 KANJI".into() }
+        };
+        return (t, Decl::Skip);
+    }
+    let (rt, rdecl) = gen_range(rng, anchor, spread, form);
+    let (cols, cdecl) = gen_classes(rng, form);
+    let mut l = rt;
+    let mut one_column = false;
+    if cols.is_empty() && rng.chance(1, 5) {
+        // only one column: format error (reported before the number is looked at)
+        form.push("line:one-column");
+        one_column = true;
+    } else {
+        for c in &cols {
+            let sep = if rng.chance(1, 8) { form.push("sep:unicode-white"); rng.pick(WHITE).to_string() }
+                else if rng.chance(1, 4) { "\t".to_string() } else if rng.chance(1, 10) { "  ".to_string() } else { " ".to_string() };
+            l.push_str(&sep);
+            l.push_str(c);
+        }
+        if cols.is_empty() || rng.chance(1, 5) {
+            l.push_str(*rng.pick(&[" #KANJI comment", " #", " # 漢字 😀", "\t#x|y", " #0x40", " ## KANJI"]));
+            form.push("line:trailing-comment");
+        }
+    }
+    if rng.chance(1, 8) {
+        let w = if rng.chance(1, 2) { " " } else { form.push("line:unicode-indent"); *rng.pick(WHITE) };
+        l = format!("{}{}{}", w, l, rng.pick(WHITE));
+    }
+    // the order of the checks in the loop body: column count, begin, end (+1), begin >= end, chars, classes
+    let decl = if one_column { Decl::Bad } else {
+        match (rdecl, cdecl) {
+            (Err(()), _) => Decl::Panic,
+            (Ok(None), _) => Decl::Bad,
+            (Ok(Some(_)), None) => Decl::Bad,
+            (Ok(Some((b, e))), Some(cats)) => Decl::Range { b, e, cats },
+        }
+    };
+    (l, decl)
+}
+
+/// bytes that are not UTF-8, one per rule of the validator
+const BAD_UTF8: &[&[u8]] = &[b"\x80", b"\xbf", b"\xc0\x80", b"\xc1\xbf", b"\xc2", b"\xc2\x41", b"\xe0\x9f\xbf", b"\xe0\xa0", b"\xed\xa0\x80", b"\xed\xbf\xbf",
+    b"\xef\xbf", b"\xf0\x8f\xbf\xbf", b"\xf0\x90\x80", b"\xf4\x90\x80\x80", b"\xf5\x80\x80\x80", b"\xff", b"\xe3\x81\x41", b"\xf0\x9f\x98\x41"];
+
+/// hand-written files: one per branch / boundary value the TASK names
+fn directed(idx: usize) -> Option<(Vec<u8>, Vec<Decl>, bool)> {
+    use Decl::*;
+    let r = |b: u32, e: u32, cats: u32| Range { b, e, cats };
+    let cases: Vec<(&[u8], Vec<Decl>, bool)> = vec![
+        (b"", vec![], true),
+        (b"\n", vec![Skip], true),
+        (b"# only a comment\n\n   \n", vec![Skip, Skip, Skip], true),
+        (b"\xef\xbb\xbf0x30 NUMERIC\n", vec![Skip], true), // a BOM hides the first line
+        (b"0x30 NUMERIC", vec![r(0x30, 0x30, 16)], true),  // no final newline
+        (b"0x30 NUMERIC\r\n0x31 ALPHA\r\n", vec![r(0x30, 0x30, 16), r(0x31, 0x31, 32)], true),
+        (b"0x30 NUMERIC\r0x31 ALPHA\r", vec![r(0x30, 0x30, 16 | 0x31 | 32)], true), // CR is only white space: ONE line, `0x31` a hex class
+        (b"0x30 NUMERIC\r\r\n", vec![r(0x30, 0x30, 16)], true),
+        // table-size and integer-width edges (seeded C17c): U+00FF / U+0100
+        (b"0x00C0..0x00FF ALPHA\n0x0100..0x017F GREEK\n", vec![r(0xc0, 0xff, 32), r(0x100, 0x17f, 512)], true),
+        (b"0xFF KANJI\n0x100 USER1\n0xFE..0x101 USER2\n", vec![r(0xff, 0xff, 4), r(0x100, 0x100, 2048), r(0xfe, 0x101, 4096)], true),
+        (b"0x7F SYMBOL\n0x80 SPACE\n0x7FF..0x800 USER3\n", vec![r(0x7f, 0x7f, 8), r(0x80, 0x80, 2), r(0x7ff, 0x800, 8192)], true),
+        // U+FFFF / U+10000
+        (b"0xFFFF KANJI\n0x10000 ALPHA\n0xFFF0..0x1000F USER4\n", vec![r(0xffff, 0xffff, 4), r(0x10000, 0x10000, 32), r(0xfff0, 0x1000f, 16384)], true),
+        // last coverable code point, whole domain
+        (b"0x10FFFE KANJI\n", vec![r(0x10fffe, 0x10fffe, 4)], true),
+        (b"0x0..0x10FFFE ALL\n0x10FFFE NOOOVBOW\n", vec![r(0, 0x10fffe, 0x3fff_ffff), r(0x10fffe, 0x10fffe, 1 << 30)], true),
+        (b"0x10FFFF KANJI\n", vec![Bad], false),
+        (b"0x10FFF0..0x10FFFF KANJI\n", vec![Bad], false),
+        // surrogate gap: U+D7FF can only be covered by a range running through the gap
+        (b"0xD7FF KANJI\n", vec![Bad], false),
+        (b"0xD7FE KANJI\n0xD7FF..0xDFFF ALPHA\n0xE000 GREEK\n", vec![r(0xd7fe, 0xd7fe, 4), r(0xd7ff, 0xdfff, 32), r(0xe000, 0xe000, 512)], true),
+        (b"0xD7F0..0xE00F KATAKANA\n", vec![r(0xd7f0, 0xe00f, 128)], true),
+        (b"0xD800..0xE000 KANJI\n", vec![Bad], false),
+        (b"0xD7F0..0xD800 KANJI\n", vec![Bad], false),
+        // begin 0: the first interval of iter() is empty
+        (b"0x0 SPACE\n0x1..0x8 USER1\n", vec![r(0, 0, 2), r(1, 8, 2048)], true),
+        // classes: DEFAULT written out next to an empty class list (adjacent equal intervals), ALL (seeded C17b)
+        (b"0x30 DEFAULT\n0x31 #nothing\n0x32 DEFAULT\n", vec![r(0x30, 0x30, 1), r(0x31, 0x31, 0), r(0x32, 0x32, 1)], true),
+        (b"0x0300..0x036F ALL NOOOVBOW\n0x0310 ALL\n", vec![r(0x300, 0x36f, 0x7fff_ffff), r(0x310, 0x310, 0x3fff_ffff)], true),
+        (b"0x30 KANJI|ALPHA 0x40 0xFFFFFFFF\n", vec![r(0x30, 0x30, 0xffff_ffff)], true),
+        (b"0x30 |\n", vec![Bad], false),
+        (b"0x30 kanji\n", vec![Bad], false),
+        (b"0x30\n", vec![Bad], false),
+        (b"0x30 KANJI\n0x31\n0x32 ALPHA\n", vec![r(0x30, 0x30, 4), Bad, r(0x32, 0x32, 32)], false),
+        // seeded C17a: nested line with the same classes
+        (b"0x0030..0x0039 NUMERIC\n0x0032 NUMERIC\n", vec![r(0x30, 0x39, 16), r(0x32, 0x32, 16)], true),
+        // numbers
+        (b"0x0x0x30 KANJI\n0x+31 ALPHA\n0x00000000032..0x0033 GREEK\n", vec![r(0x30, 0x30, 4), r(0x31, 0x31, 32), r(0x32, 0x33, 512)], true),
+        (b"0xFFFFFFFF KANJI\n", vec![Panic], false),
+        (b"0x30..0xFFFFFFFF KANJI\n", vec![Panic], false),
+        (b"0x100000000 KANJI\n", vec![Bad], false),
+        (b"0x39..0x30 KANJI\n", vec![Bad], false),
+        // the first error decides: a malformed line before bytes that are not UTF-8, and the other way round
+        (b"0x30\n# \xff\n", vec![Bad, Bad], false),
+        (b"# \xff\n0x30\n", vec![Bad, Bad], false),
+        (b"0x30 KANJI # \xe3\x81\n", vec![Bad], false),
+        // white space of every kind between the columns
+        ("\u{3000}0x30\u{3000}KANJI\u{a0}ALPHA\u{2028}#c\u{85}\n".as_bytes(), vec![r(0x30, 0x30, 4 | 32)], true),
+        ("0x30\u{200b}KANJI ALPHA\n".as_bytes(), vec![Bad], false),
+    ];
+    let (t, d, l) = cases.get(idx)?.clone();
+    Some((t.to_vec(), d, l))
+}
+
+pub const DIRECTED: usize = 40;
+
+/// the definition files shipped with the repository
+const SHIPPED: &[&str] = &["resources/char.def", "sudachi/tests/resources/char.def", "python/py_src/sudachipy/resources/char.def",
+    "python/tests/resources/char.def"];
+
+/// what a shipped file declares, read with the PLAIN syntax only (`0xHHHH[..0xHHHH] NAME.. [#comment]`, ASCII blanks);
+/// any other spelling makes the line `Bad`, so a shipped file using one shows up as a disagreement
+fn plain_decls(text: &str) -> Vec<Decl> {
+    let hexv = |t: &str| -> Option<u32> {
+        let h = t.strip_prefix("0x")?;
+        if h.is_empty() || h.len() > 8 || !h.bytes().all(|b| b.is_ascii_hexdigit()) { return None; }
+        let mut v = 0u32;
+        for b in h.bytes() { v = v * 16 + (b as char).to_digit(16).unwrap(); }
+        Some(v)
+    };
+    let mut out = vec![];
+    let mut segs: Vec<&str> = text.split('\n').collect();
+    if segs.last() == Some(&"") { segs.pop(); }
+    for l in segs {
+        let l = l.trim_matches(|c| c == ' ' || c == '\t' || c == '\r');
+        if !l.starts_with("0x") { out.push(Decl::Skip); continue; }
+        let toks: Vec<&str> = l.split(|c| c == ' ' || c == '\t').filter(|t| !t.is_empty()).collect();
+        let parts: Vec<&str> = toks[0].split("..").collect();
+        let be = match parts.len() {
+            1 => hexv(parts[0]).map(|b| (b, b)),
+            2 => match (hexv(parts[0]), hexv(parts[1])) { (Some(b), Some(e)) => Some((b, e)), _ => None },
+            _ => None,
+        };
+        let mut cats = Some(0u32);
+        for t in &toks[1..] {
+            if t.starts_with('#') { break; }
+            match NAMES.iter().find(|(n, _)| n == t) { Some((_, v)) => cats = cats.map(|c| c | v), None => cats = None }
+        }
+        out.push(match (be, cats) {
+            (Some((b, e)), Some(c)) if toks.len() >= 2 && range_ok(b, e) => Decl::Range { b, e, cats: c },
+            _ => Decl::Bad,
+        });
+    }
+    out
+}
+
+/// a definition file together with what its lines declare; `loads` = no line is refused
+pub fn gen_def(rng: &mut Rng, idx: usize, form: &mut Vec<&'static str>) -> (Vec<u8>, Vec<Decl>, bool) {
+    if let Some(d) = directed(idx) {
+        form.push("directed");
+        return d;
+    }
+    if idx < DIRECTED + SHIPPED.len() {
+        let repo = std::env::var("VERIF_REPO").unwrap_or_else(|_| "/repo".to_string());
+        if let Ok(bytes) = std::fs::read(format!("{}/{}", repo, SHIPPED[idx - DIRECTED])) {
+            if let Ok(t) = std::str::from_utf8(&bytes) {
+                form.push("shipped-file");
+                let decls = plain_decls(t);
+                let loads = decls.iter().all(|d| matches!(d, Decl::Skip | Decl::Range { .. }));
+                return (bytes.clone(), decls, loads);
+            }
+        }
+    }
+    let mut text: Vec<u8> = vec![];
+    let mut decls = vec![];
+    let nlines = match rng.below(12) {
+        0 => { form.push("size:10-48-lines"); rng.range(10, 48) }
+        1 => 1,
+        _ => rng.range(1, 9),
+    };
+    let chain = rng.chance(1, 15); // adjacent single points in code-point order (or reversed): the merge loop
+    if chain { form.push("shape:adjacent-chain"); }
+    let anchor = if rng.chance(1, 6) { *rng.pick(EDGES) - rng.below(3) as u32 } else { *rng.pick(ANCHORS) };
+    let spread = *rng.pick(&[4u32, 8, 14]);
+    let rev = rng.chance(1, 2);
+    let same = NAMES[rng.below(NAMES.len())];
+    for k in 0..nlines {
+        let (l, d) = if chain {
+            let x = (anchor + if rev { (nlines - 1 - k) as u32 } else { k as u32 }).min(0x10fffe);
+            let (n, v) = if rng.chance(3, 4) { same } else { *rng.pick(NAMES) };
+            (format!("0x{:04X} {}", x, n), if range_ok(x, x) { Decl::Range { b: x, e: x, cats: v } } else { Decl::Bad })
+        } else {
+            // large files consist of lines that load (otherwise hardly any large file would reach compile())
+            loop {
+                let (l, d) = gen_line(rng, anchor, spread, form);
+                if nlines < 10 || matches!(d, Decl::Skip | Decl::Range { .. }) { break (l, d); }
+            }
+        };
+        text.extend_from_slice(l.as_bytes());
+        if nlines < 10 && rng.chance(1, 120) {
+            // bytes that are not UTF-8, anywhere on the line (`lines()` validates the whole segment)
+            form.push("bytes:not-utf8");
+            text.extend_from_slice(if rng.chance(1, 2) { b" # " } else { b"" });
+            let bad: &[u8] = *rng.pick(BAD_UTF8);
+            text.extend_from_slice(bad);
+            decls.push(match d { Decl::Panic | Decl::Range { .. } | Decl::Skip | Decl::Bad => Decl::Bad });
+        } else {
+            decls.push(d);
+        }
+        if k + 1 == nlines && rng.chance(1, 6) {
+            form.push("eol:none-at-eof");
+        } else if rng.chance(1, 10) {
+            form.push("eol:crlf");
+            text.extend_from_slice(b"\r\n");
+        } else if rng.chance(1, 60) {
+            form.push("eol:crcrlf");
+            text.extend_from_slice(b"\r\r\n");
+        } else {
+            text.push(b'\n');
+        }
+    }
+    // the reader stops at the first line it refuses (panic included)
+    let loads = decls.iter().all(|d| matches!(d, Decl::Skip | Decl::Range { .. }));
+    (text, decls, loads)
 }
 
 pub fn naive(lines: &[DefLine], x: u32) -> u32 {
@@ -100,15 +407,48 @@ pub fn naive(lines: &[DefLine], x: u32) -> u32 {
     if u == 0 { 1 } else { u }
 }
 
+fn show_err(e: &SudachiError) -> String {
+    use std::num::IntErrorKind as K;
+    match e {
+        SudachiError::Io { .. } => "err:Io".into(),
+        SudachiError::ParseIntError(p) => format!("err:ParseInt:{}", match p.kind() {
+            K::Empty => "Empty", K::InvalidDigit => "InvalidDigit", K::PosOverflow => "PosOverflow", _ => "Other" }),
+        SudachiError::InvalidCharacterCategory(CcError::InvalidFormat(i)) => format!("err:InvalidFormat:{}", i),
+        SudachiError::InvalidCharacterCategory(CcError::InvalidChar(c, i)) => format!("err:InvalidChar:{}:{}", c, i),
+        SudachiError::InvalidCharacterCategory(CcError::InvalidCategoryType(i, s)) =>
+            format!("err:InvalidType:{}:{}", i, join(s.chars().map(|c| c as u32), ".")),
+        other => format!("err:Other:{}", format!("{:?}", other).replace(' ', "_")),
+    }
+}
+
+/// which `CharCategoryIter::next` the linked tree has: `cur` panics on the table without boundaries, `fix` yields one range
+fn iter_variant() -> &'static str {
+    match catch(|| CharacterCategory::default().iter().next().map(|(r, c)| (r.start as u32, r.end as u32, c.bits()))) {
+        Ok(Some((0, 0x10ffff, 1))) => "fix",
+        _ => "cur",
+    }
+}
+
 pub fn run(run: &mut Run) {
-    run.rule = "random char.def files around one anchor (overlapping, nested, adjacent, duplicated, single points, begin 0, \
-ends next to the surrogate gap and U+10FFFF, comments, junk lines, CRLF); non-trivial = loads and two lines overlap or touch; \
+    run.rule = "char.def files built from declared forms: per line a range form (single, pair, 0x padding/case/8 and 11 digits/'+'/doubled 0x, \
+second field without 0x, third '..' part, long ranges through the surrogate gap and to U+10FFFE; malformed: empty fields, '...', '-', bad digit, \
+9-digit overflow, u32::MAX (+1 panic), end before begin, ends whose successor is not a scalar), a class-column form (names, A|B, hex flags, unknown bits, \
+ALL, empty list + comment; malformed: unknown/lower-case names, '|', empty hex, overflow), separators from all White_Space code points, non-white look-alikes, \
+comments with 2/3/4-byte characters, bytes that are not UTF-8, LF/CRLF/CRCRLF/no final newline, 0..48 lines, adjacent chains; 40 directed files first \
+(U+00FF/0100, U+FFFF/10000, U+10FFFE/10FFFF, U+D7FF/E000, begin 0, BOM, CR-only, first-error order); non-trivial = loads and two lines overlap or touch; \
 distinct by file text + probes".into();
     let n = run.opts.count;
+    let itv = iter_variant();
+    run.extra.insert("iter_variant".into(), serde_json::json!(itv));
     for idx in 0..n {
         if !run.wants(idx) { continue; }
         let mut rng = Rng::for_case(run.opts.seed, idx);
-        let (text, lines, loads_expected) = gen_def(&mut rng, idx);
+        let mut form: Vec<&'static str> = vec![];
+        let (text, decls, loads_expected) = gen_def(&mut rng, idx, &mut form);
+        form.sort();
+        form.dedup();
+        for f in &form { run.bump(&format!("form:{}", f)); }
+        let lines: Vec<DefLine> = decls.iter().filter_map(|d| match d { Decl::Range { b, e, cats } => Some(DefLine { b: *b, e: *e, cats: *cats }), _ => None }).collect();
         // probes: every range end and its neighbours
         let mut probes: Vec<u32> = vec![0, 0x10ffff];
         for l in &lines {
@@ -126,8 +466,11 @@ distinct by file text + probes".into();
         for l in &lines { if l.e > l.b + 1 { let x = l.b + 1 + (rng.below((l.e - l.b - 1) as usize) as u32); if is_scalar(x) { probes.push(x); } } }
         probes.sort();
         probes.dedup();
-        let payload = format!("def={} probe={}", hex(text.as_bytes()), join(probes.iter(), ","));
-        let res = catch(|| CharacterCategory::from_reader(text.as_bytes()));
+        for &x in &probes {
+            run.bump(match x { 0..=0x7f => "probe:1-byte", 0x80..=0x7ff => "probe:2-byte", 0x800..=0xffff => "probe:3-byte", _ => "probe:4-byte" });
+        }
+        let payload = format!("def={} probe={} itv={}", hex(&text), join(probes.iter(), ","), itv);
+        let res = catch(|| CharacterCategory::from_reader(&text[..]));
         let mut touch = false;
         for (i, a) in lines.iter().enumerate() {
             for b in lines.iter().skip(i + 1) {
@@ -140,32 +483,36 @@ distinct by file text + probes".into();
                 run.case(idx, "chardef", &payload, "PANIC", false);
                 // loading is outside C17; a panic while loading is reported for information only
                 run.bump(&format!("load-panic:{}", p.chars().take(40).collect::<String>()));
+                if loads_expected { run.bump("generator-expected-load"); }
             }
-            Ok(Err(_)) => {
+            Ok(Err(e)) => {
+                let ans = show_err(&e);
                 run.bump("outcome:load-error");
-                run.case(idx, "chardef", &payload, "err", false);
+                run.bump(&format!("load-error:{}", ans.split(':').take(2).collect::<Vec<_>>().join(":")));
+                run.case(idx, "chardef", &payload, &ans, false);
                 if loads_expected {
                     run.bump("generator-expected-load");
                 }
             }
             Ok(Ok(cc)) => {
                 run.bump("outcome:ok");
-                run.bump(&format!("lines:{}", lines.len().min(9)));
+                run.bump(&format!("lines:{}", if lines.len() < 10 { lines.len().to_string() } else { "10+".into() }));
                 if touch { run.bump("overlap-or-adjacent"); }
-                let tab = if lines.is_empty() {
-                    (String::new(), 1u32)
-                } else {
-                    let items: Vec<_> = cc.iter().collect();
-                    let mut s = vec![];
-                    for (r, c) in &items[..items.len() - 1] {
-                        s.push(format!("{}:{}", r.end as u32, c.bits()));
-                    }
-                    (s.join(","), items[items.len() - 1].1.bits())
+                // `iter()` on the loaded table: every item, start and end
+                let items = catch(|| cc.iter().map(|(r, c)| (r.start as u32, r.end as u32, c.bits())).collect::<Vec<_>>());
+                let iter_s = match &items {
+                    Ok(v) => join(v.iter().map(|(s, e, c)| format!("{}:{}:{}", s, e, c)), ","),
+                    Err(_) => "PANIC".to_string(),
                 };
                 let cats: Vec<u32> = probes.iter().map(|&x| cc.get_category_types(char::from_u32(x).unwrap()).bits()).collect();
-                let ans = format!("ok tab={} last={} cats={}", tab.0, tab.1, join(cats.iter(), ","));
+                let ans = format!("ok iter={} cats={}", iter_s, join(cats.iter(), ","));
                 run.case(idx, "chardef", &payload, &ans, touch && lines.len() >= 2);
-                // oracle: naive scan of the declared lines
+                if !loads_expected {
+                    // a refused line was accepted: nothing declared to compare with; the correspondence run reports it
+                    run.bump("generator-expected-error-but-loaded");
+                    continue;
+                }
+                // oracle 1: naive scan of the declared lines
                 for (k, &x) in probes.iter().enumerate() {
                     let want = naive(&lines, x);
                     if cats[k] != want {
@@ -173,8 +520,47 @@ distinct by file text + probes".into();
                         break;
                     }
                 }
-                if !loads_expected {
-                    run.bump("generator-expected-error-but-loaded");
+                // oracle 2: `iter()` = consecutive half-open ranges from 0 to char::MAX, each with the classes of every code point in it
+                match &items {
+                    Err(_) => {
+                        run.bump("iter:panic");
+                        if lines.is_empty() {
+                            run.fail(idx, "c17:iter:empty-table", "iter() panics on a definition without range lines (every code point is DEFAULT)");
+                        } else {
+                            run.fail(idx, "c17:iter:panic", "iter() panics on a loaded table");
+                        }
+                    }
+                    Ok(v) => {
+                        run.bump(&format!("iter:items:{}", if v.len() < 10 { v.len().to_string() } else { "10+".into() }));
+                        let mut bad: Option<(String, String)> = None;
+                        if v.is_empty() || v[0].0 != 0 || v[v.len() - 1].1 != 0x10ffff {
+                            bad = Some(("c17:iter:ends".into(), "iter() does not run from 0 to char::MAX".into()));
+                        }
+                        for w in v.windows(2) {
+                            if w[0].1 != w[1].0 { bad = Some((format!("c17:iter:gap:{:x}", w[0].1), format!("iter(): range ending at {:#x} is followed by one starting at {:#x}", w[0].1, w[1].0))); }
+                        }
+                        if v.first().map_or(false, |f| f.0 == f.1) { run.bump("iter:first-empty"); }
+                        for (s, e, c) in v {
+                            if s >= e { continue; }
+                            let mut pts = vec![*s, e - 1, s + rng.below((e - s) as usize) as u32];
+                            if *s < 0xd800 && *e > 0xd800 { pts.push(0xd7ff); }
+                            if *s <= 0xe000 && *e > 0xe000 { pts.push(0xe000); }
+                            for x in pts {
+                                if is_scalar(x) && naive(&lines, x) != *c {
+                                    bad = Some((format!("c17:iter:{:x}", x), format!("iter(): U+{:04X} lies in {:#x}..{:#x} reported with {:#x}, union of covering lines {:#x}", x, s, e, c, naive(&lines, x))));
+                                }
+                            }
+                        }
+                        for &x in &probes {
+                            if x == 0x10ffff { continue; }
+                            let hit: Vec<_> = v.iter().filter(|(s, e, _)| *s <= x && x < *e).collect();
+                            if hit.len() != 1 || hit[0].2 != naive(&lines, x) {
+                                bad = Some((format!("c17:iter:{:x}", x), format!("iter(): U+{:04X} is in {} ranges / has the wrong classes", x, hit.len())));
+                            }
+                        }
+                        if v.windows(2).any(|w| w[0].2 == w[1].2) { run.bump("iter:adjacent-equal-classes"); }
+                        if let Some((k, w)) = bad { run.fail(idx, &k, &w); }
+                    }
                 }
             }
         }
